@@ -268,6 +268,28 @@ func dslPrint(args []string) error {
 					}
 				}
 			}
+			// an item without module and file may carry an empty metadata message instead of none (every second variant: the first such
+			// condition by name and every such type): the same content, "unattributed items first, by name" either way
+			if v%2 == 1 {
+				names := []string{}
+				for n, c := range pm.GetConditions() {
+					if c.GetMetadata() == nil {
+						names = append(names, n)
+					}
+				}
+				sort.Strings(names)
+				if len(names) > 0 {
+					pm.Conditions[names[0]].Metadata = &openfgav1.ConditionMetadata{}
+				}
+				for _, td := range pm.GetTypeDefinitions() {
+					if td.GetMetadata() == nil {
+						td.Metadata = &openfgav1.Metadata{}
+					}
+				}
+				if b, err := protojson.Marshal(pm); err == nil {
+					doc = shuffleJSON(b, rng)
+				}
+			}
 			for rep := 0; rep < 3; rep++ {
 				obs.NVariants++
 				add(guard(func() (string, error) {
